@@ -23,7 +23,9 @@ CLAIM = {
           'fractional part is within 2^-40 (or the float error bound) of an integer and counts those cases. math.log10 '
           'is abstract in the model: the driver is handed the float values of log10 the code computed. '
           'filter_keeps_first_partial covers MAX_BACKUP_TRACK_CROSSING_LINES = 4 and the at most 7 pairs the caller '
-          'can produce, not every list. SVG level is oracle-only.'),
+          'can produce, not every list. SVG level is oracle-only. The float-only guard `not math.isfinite(p)` of wrapPos '
+          'cannot fire in the exact model: those inputs are counted (fp_overflow_not_in_model), not compared; the oracle '
+          'there demands ExceptionLineTransBaseMath.'),
  'technique': 'Lean 4 proof (ordered field with floor, induction on the wrap loop) + error-bounded model-implementation '
               'correspondence + generated-input SVG oracle',
  'design_ref': 'DESIGN.md section 6 C19',
@@ -45,6 +47,8 @@ TRUSTED = ['modelled, not verified: IEEE-754 double rounding of PRESCfg arithmet
            'math.log10(v/lL), math.log10(rL/lL), math.log10(lL), math.log10(v) computed in Python)',
            'not modelled: Plot._plotSingleOutput buffering, PlotRoll/Coord/SVGWriter/XmlWrite (exercised by the SVG oracle only)',
            'lxml as the SVG well-formedness judge']
+
+ANCHOR_FILES = ['src/TotalDepth/util/plot/PRESCfg.py', 'src/TotalDepth/util/plot/Plot.py']
 
 BACKUPS = {'NONE': (1, -1), 'ALL': (0, 0), 'ONCE': (-1, 1), 'TWICE': (-2, 2), 'LEFT': (0, -1), 'RIGHT': (1, 0)}
 TWO = Fr(2)
@@ -256,10 +260,10 @@ def oracle_wrap(ctx, case, kind, lP, rP, lL, rL, bu, v, res):
         # float overflow/underflow inside the code: outside the working domain of the in-track oracle
         ctx.count('ill_conditioned')
         if res == ('err', 'LineTransBaseMath'):
-            ctx.count('overflow_refused')          # refused with the exception the plotting loop catches: acceptable
+            ctx.count('overflow_refused')          # refused with the exception the plotting loop catches: the repaired behaviour
         elif res[0] == 'err':
-            ctx.fail(case, f'finite value on a valid scale escapes as {res[1]} (float overflow/underflow in wrapPos/ctor)',
-                     finding='F-C19-OVERFLOW')
+            ctx.fail(case, f'finite value on a valid scale escapes as {res[1]} (float overflow/underflow in wrapPos/ctor) '
+                           f'instead of a position or ExceptionLineTransBaseMath')
         return
     if res[0] == 'err':
         ctx.fail(case, f'valid scale and finite value but {res[1]} raised'); return
@@ -435,6 +439,13 @@ def run_offscale(ctx):
     ctx.extra['exhaustive_scope'] = 'offScale: 12 back-up tuples x wrap counts -8..8 and +-1e6, +-1e300 (complete grid)'
 
 
+def _int_overflows_double(n):
+    try:
+        float(n); return False
+    except OverflowError:
+        return True
+
+
 def impl_interp(Plot, PRESCfg, Coord, bu, xp, xn, wp, wn, pNow=1.25):
     P = Plot.Plot.__new__(Plot.Plot)
     L = Coord.Dim(0.5, 'in'); R = Coord.Dim(2.9, 'in')
@@ -467,6 +478,9 @@ def run_interp(ctx):
         xn = xp + rng.choice([-1, 1]) * rng.choice([0.5, 0.25, 60.0, 1.0, 0.1524, 6.0])
         wp = rng.randint(-20, 20); wn = rng.choice([rng.randint(-20, 20), rng.randint(-10 ** 7, 10 ** 7), wp + rng.randint(-9, 9)])
         cs.append((bu, xp, xn, wp, wn))
+    # wrap jumps at the top of the double range (reachable: wrapPos returns floor(p) for any finite p <= 1.8e308)
+    for wp, wn in ((0, 2 ** 1023 - 1), (0, 2 ** 1023), (-(2 ** 1023), 2 ** 1023), (3, int(1e308)), (int(-1.7e308), int(1.7e308)), (0, int(8.9e307))):
+        cs.append(((0, 0), 5000.0, 4999.5, wp, wn))
     rep = ctx.lean([f'interp {M} {b[0]} {b[1]} {rs(xp)} {rs(xn)} {wp} {wn}' for b, xp, xn, wp, wn in cs]) \
         if getattr(ctx, 'model_available', True) else [None] * len(cs)
     for (b, xp, xn, wp, wn), r in zip(cs, rep):
@@ -478,12 +492,18 @@ def run_interp(ctx):
             if st != 'err AssertionError':
                 ctx.fail(case, f'equal wrap counts not refused: {st}')
         elif st != 'ok':
-            ctx.fail(case, f'_retInterpolateWrapPoints raised {st}')
+            huge = _int_overflows_double(2 * abs(wn - wp))
+            ctx.fail(case, f'_retInterpolateWrapPoints raised {st}' + (' (2*abs(wrapDiff) does not fit a double)' if huge else ''),
+                     finding='F-C19-OVERFLOW' if huge and st == 'err OverflowError' else None)
         else:
             pe, cl, pn = out
             lo, hi = min(xp, xn), max(xp, xn)
             pts = ([pe] if pe else []) + cl + ([pn[:2]] if pn else [])
-            bad = [q for q in pts if not (lo < q[0] < hi) or q[1] not in 'LR']
+            # strictly between, except that xPrev + xInc rounds back onto the frame when the wrap jump exceeds 2^40 (float rounding)
+            strict = abs(wn - wp) < 2 ** 40
+            bad = [q for q in pts if not ((lo < q[0] < hi) if strict else (lo <= q[0] <= hi)) or q[1] not in 'LR']
+            if not strict:
+                ctx.count('fp_interp_on_frame')
             if bad:
                 ctx.fail(case, f'interpolated point {bad[0]} not strictly between the frames {xp!r}, {xn!r} on a track edge')
             elif len(cl) % 2 or len(cl) > 2 * M:
@@ -496,6 +516,8 @@ def run_interp(ctx):
                 ctx.nontriv(('interp', b, max(-10, min(10, wn - wp)), pe is None, pn is None))
         if r is None:
             continue
+        if st == 'err OverflowError' and r.startswith('ok') and _int_overflows_double(2 * abs(wn - wp)):
+            ctx.count('fp_overflow_not_in_model'); continue      # the exact model has no int -> double conversion
         if st != 'ok' or not r.startswith('ok'):
             ctx.corr('interp', case, st, r); continue
         _, mpe, mcl, mpn = r.split(' ')
@@ -591,7 +613,8 @@ def replay(ctx, rec):
         lo, hi = sorted((f(case['xp']), f(case['xn'])))
         pts = ([pe] if pe else []) + cl + ([pn[:2]] if pn else [])
         M = Plot.Plot.MAX_BACKUP_TRACK_CROSSING_LINES
-        good = all(lo < q[0] < hi and q[1] in 'LR' for q in pts) and len(cl) % 2 == 0 and len(cl) <= 2 * M \
+        strict = abs(case['wn'] - case['wp']) < 2 ** 40
+        good = all(((lo < q[0] < hi) if strict else (lo <= q[0] <= hi)) and q[1] in 'LR' for q in pts) and len(cl) % 2 == 0 and len(cl) <= 2 * M \
             and not any(cl[i][1] == cl[i + 1][1] for i in range(0, len(cl), 2)) and (not pn or (pn[4] == 2 and pn[2] == f(case['xn'])))
         return good, f'{out}'
     elif op == 'svg':
